@@ -6,6 +6,11 @@ Line-protocol driver for C02.
 Ops
   `init pm`                                     one bare `PositionManager` (every fill goes to it)
   `init engine <n>`                             `n` instruments, fills routed by instrument index
+  `init enginex <E|D> <links> <spec>+`          configuration-shape family: one instrument per `<spec>` =
+                                                `<exchange label 0..2><kind s|p|f|o>`, trading state at start,
+                                                `<links>` = three letters `H|M` (execution link per exchange
+                                                label present / absent). The property quantifies over none of
+                                                these: model and spec see `init engine <number of specs>`.
   `fill <id> <instr> <time> <B|S> <price> <qty> <fee>`
 
 Observations after a fill (for the position manager the fill was routed to):
@@ -112,9 +117,20 @@ inductive Mode where
   | pm
   | engine (n : Nat)
 
+def validSpec (t : String) : Bool :=
+  match t.toList with
+  | [e, k] => (e == '0' || e == '1' || e == '2') && (k == 's' || k == 'p' || k == 'f' || k == 'o')
+  | _ => false
+
+def validLinks (t : String) : Bool :=
+  t.length == 3 && t.toList.all fun c => c == 'H' || c == 'M'
+
 def parseInit : List String → Option Mode
   | ["init", "pm"] => some .pm
   | ["init", "engine", n] => n.toNat?.map .engine
+  | "init" :: "enginex" :: trading :: links :: spec :: specs =>
+    if (trading == "E" || trading == "D") && validLinks links && (spec :: specs).all validSpec
+    then some (.engine (specs.length + 1)) else none
   | _ => none
 
 structure MSt where
